@@ -609,6 +609,25 @@ func (p *Program) buildQueryOpt(o *Obligation, unfoldDepth int, filter bool) str
 			collect(a, seenT, func(t *Term) { ops[t.Op] = true })
 		}
 		collect(o.Goal, seenT, func(t *Term) { ops[t.Op] = true })
+		// close under the definitions of the recursive/opaque spec functions (their bodies are unfolded later)
+		closeOps := func() {
+			for grew := true; grew; {
+				grew = false
+				for _, info := range p.pureDecl {
+					if info == nil || info.body == nil || !ops[info.symbol] || ops["$body:"+info.symbol] {
+						continue
+					}
+					ops["$body:"+info.symbol] = true
+					collect(info.body, map[*Term]bool{}, func(t *Term) {
+						if !ops[t.Op] {
+							ops[t.Op] = true
+							grew = true
+						}
+					})
+				}
+			}
+		}
+		closeOps()
 		pending := append([]*Term{}, p.globalAxioms()...)
 		for changed := true; changed; {
 			changed = false
@@ -632,6 +651,7 @@ func (p *Program) buildQueryOpt(o *Obligation, unfoldDepth int, filter bool) str
 							changed = true
 						}
 					}
+					closeOps()
 				} else {
 					rest = append(rest, ax)
 				}
